@@ -4,7 +4,7 @@ import importlib
 from checks import common
 
 
-def run_simple(prop, tier, seed, bounded_module, proved_targets=(), gen_sources=None, level="exploration", explanation="", assumptions=()):
+def run_simple(prop, tier, seed, bounded_module, proved_targets=(), gen_sources=None, level="exploration", explanation="", assumptions=(), extra=()):
     out = common.Outcome(prop, tier, seed)
     if proved_targets:
         out.add_pyvc(common.pyvc_run(list(proved_targets), gen_sources=gen_sources, timeout_ms=10000 if tier == "quick" else 60000))
@@ -14,5 +14,11 @@ def run_simple(prop, tier, seed, bounded_module, proved_targets=(), gen_sources=
     except Exception as e:  # noqa - a stand-in that dies is a checker problem (exit 3), never an alarm by itself; proved obligations are still reported
         import traceback
         out.crashes.append(f"stand-in {bounded_module} crashed: {type(e).__name__}: {e} | {' / '.join(traceback.format_exc().splitlines()[-4:])}")
+    for fn in extra:
+        try:
+            fn(out, tier, seed)
+        except Exception as e:  # noqa
+            import traceback
+            out.crashes.append(f"extra stand-in {fn.__name__} crashed: {type(e).__name__}: {e} | {' / '.join(traceback.format_exc().splitlines()[-3:])}")
     out.assumptions += list(assumptions)
     return out.finish(level, rule="see bounded_standins[].bound; obligations are (clause, path) verification conditions of the functions under contract", explanation=explanation)
